@@ -134,20 +134,47 @@ def run(chk: Check, repo: Repo) -> None:
 
 
 def float16(chk: Check, repo: Repo, c, m, vmin, vmax, plen) -> None:
-    """KNX 16-bit float: value*100 halved until it fits the 11-bit signed mantissa; 4 exponent bits."""
-    body_src = ast.unparse(m.node)
-    tests = [ast.unparse(n.test) for n in walk_local(m.node) if isinstance(n, ast.While)]
+    """KNX 16-bit float: value*k halved until it fits the signed mantissa; exponent bits next to the sign bit.
+    All constants are read from the encoder body (loop bounds, mask, scale, shift)."""
+    whiles = [n for n in walk_local(m.node) if isinstance(n, ast.While)]
     guard = [n for n in walk_local(m.node) if isinstance(n, ast.If) and "_test_boundaries" in ast.unparse(n.test) and any(isinstance(x, ast.Raise) for x in n.body)]
-    scale = [n for n in walk_local(m.node) if isinstance(n, ast.Assign) and isinstance(n.value, ast.BinOp) and isinstance(n.value.op, ast.Mult) and isinstance(n.value.right, ast.Constant)]
-    ok_shape = len(tests) == 1 and tests[0] == "not -2048 <= knx_value <= 2047" and len(guard) == 1 and len(scale) >= 1 and "exponent << 3" in body_src and "knx_value /= 2" in body_src
-    if not ok_shape:
-        raise AnalysisError(f"{c.name}.to_knx: 16-bit float encoder changed shape")
+    scale = [n for n in walk_local(m.node) if isinstance(n, ast.Assign) and isinstance(n.value, ast.BinOp) and isinstance(n.value.op, ast.Mult) and isinstance(n.value.right, ast.Constant) and isinstance(n.value.left, ast.Name)]
+    if len(whiles) != 1 or len(guard) != 1 or not scale:
+        raise AnalysisError(f"{c.name}.to_knx: 16-bit float encoder not recognised (loops {len(whiles)}, guards {len(guard)})")
+    w = whiles[0]
+    t = w.test
+    if not (isinstance(t, ast.UnaryOp) and isinstance(t.op, ast.Not) and isinstance(t.operand, ast.Compare) and len(t.operand.ops) == 2 and isinstance(t.operand.comparators[0], ast.Name)):
+        raise AnalysisError(f"{c.name}.to_knx: loop condition `{ast.unparse(t)}` not recognised")
+    var = t.operand.comparators[0].id
+    lo = repo.fold(t.operand.left, m.module, c)
+    hi = repo.fold(t.operand.comparators[1], m.module, c)
+    op_lo, op_hi = t.operand.ops
+    body_txt = [ast.unparse(x) for x in w.body]
+    halves = any(bt in (f"{var} /= 2", f"{var} = {var} / 2") for bt in body_txt)
+    evar = next((x.target.id for x in w.body if isinstance(x, ast.AugAssign) and isinstance(x.op, ast.Add) and isinstance(x.target, ast.Name) and ast.unparse(x.value) == "1"), None)
+    masks = [n for n in walk_local(m.node) if isinstance(n, ast.BinOp) and isinstance(n.op, ast.BitAnd) and isinstance(n.left, ast.Call) and call_name(n.left) == "round" and ast.unparse(n.left.args[0]) == var]
+    shifts = [n for n in walk_local(m.node) if isinstance(n, ast.BinOp) and isinstance(n.op, ast.LShift) and isinstance(n.left, ast.Name) and n.left.id == evar]
+    if not (isinstance(lo, (int, float)) and isinstance(hi, (int, float)) and halves and evar and len(masks) == 1 and len(shifts) == 1):
+        raise AnalysisError(f"{c.name}.to_knx: 16-bit float encoder constants not recognised")
+    mask = repo.fold(masks[0].right, m.module, c)
+    sh = repo.fold(shifts[0].right, m.module, c)
     k = scale[0].value.right.value
+    mbits = int(mask).bit_length()
+    # loop exit range of the mantissa candidate, and what round() can make of it
+    r_lo = round(lo) if isinstance(op_lo, ast.LtE) else math.floor(lo) + 0  # `lo < x`: round(x) >= round(lo) as well
+    r_hi = round(hi) if isinstance(op_hi, ast.LtE) else (hi if float(hi).is_integer() else round(hi))  # `x < hi` with integral hi: round(x) can reach hi
+    # the sign is carried by its own bit (`if x < 0: msb |= 0x80`), the masked field holds the low bits of the
+    # two's-complement value: together a (mbits + 1)-bit signed number
+    sign = any(isinstance(n, ast.If) and ast.unparse(n.test) == f"{var} < 0" and any(isinstance(x, ast.AugAssign) and isinstance(x.op, ast.BitOr) and repo.fold(x.value, m.module, c) == 0x80 for x in n.body) for n in walk_local(m.node))
+    fits = sign and -(1 << mbits) <= r_lo and r_hi <= (1 << mbits) - 1 and mask == (1 << mbits) - 1
+    chk.ob("mantissa-fits-its-field-after-rounding", m.site(w), fits, f"{c.name}: the search loop exits with {lo} {'<=' if isinstance(op_lo, ast.LtE) else '<'} {var} {'<=' if isinstance(op_hi, ast.LtE) else '<'} {hi}; round({var}) can reach {r_lo}..{r_hi}; the mantissa field `& {mask:#x}` plus the sign bit holds {-(1 << mbits)}..{(1 << mbits) - 1}" + ("" if fits else " — a rounded mantissa outside the field is masked to a different value (e.g. 2048 -> 0)"), key=f"mantissa|{c.name}" if not fits else f"mantissa|{m.qualname}")
     garg = ast.unparse(guard[0].test)
     units_ok = garg in ("not cls._test_boundaries(value)",)
     chk.ob("in-range-values-are-accepted", m.site(), units_ok, f"{c.name}: range guard `{garg}` is applied to the value itself (declared units)", key=f"accept|{c.name}")
-    need_hi = 0 if vmax <= 0 else max(0, math.ceil(math.log2(max(vmax * k / 2047, 1))))
-    need_lo = 0 if vmin >= 0 else max(0, math.ceil(math.log2(max(-vmin * k / 2048, 1))))
+    ebits = 8 - 1 - int(sh)  # sign bit, exponent, upper mantissa bits share the first octet
+    pos_lim, neg_lim = (hi if isinstance(op_hi, ast.LtE) else hi), -lo
+    need_hi = 0 if vmax <= 0 else max(0, math.ceil(math.log2(max(vmax * k / pos_lim, 1))))
+    need_lo = 0 if vmin >= 0 else max(0, math.ceil(math.log2(max(-vmin * k / neg_lim, 1))))
     need = max(need_hi, need_lo)
-    chk.ob("in-range-values-fit-the-wire-field", m.site(), need <= 15 and plen == 2, f"{c.name}: [{vmin}, {vmax}] x {k} needs exponent {need} of the 4-bit field (max 15); payload_length {plen}", key=f"fit|{c.name}")
+    chk.ob("in-range-values-fit-the-wire-field", m.site(), need <= (1 << ebits) - 1 and plen == 2 and mbits + ebits + 1 == 16, f"{c.name}: [{vmin}, {vmax}] x {k} needs exponent {need} of the {ebits}-bit field (max {(1 << ebits) - 1}); sign + {ebits} + {mbits} bits; payload_length {plen}", key=f"fit|{c.name}")
     chk.ob("out-of-range-values-are-refused", m.site(), units_ok, f"{c.name}: values beyond the declared range fail the same guard and are refused", key=f"refuse|{c.name}|both")
